@@ -1,3 +1,2287 @@
+// Part 2 of gvgoslp: straight-line programs over field-like receivers (tower formulas) -> Lean defs.
+//
+// Semantics implemented here (this file is part of the trusted base, keep it small):
+//   - the state is a finite set of root cells: one per alias block of pointer positions (receiver +
+//     pointer parameters), one per by-value parameter, one per local `var`/`:=`; a cell holds a tree of
+//     base-field values shaped like its Go type (struct fields / fixed arrays).
+//   - a primitive base-field call `dst.Op(&a,&b)` is ONE atomic update `dst := op a b` (all reads first);
+//   - a call of another translated function is a call of its Lean def for the alias pattern observed at the
+//     call site (equal locations of same-typed pointer arguments); the cells the callee may write are
+//     replaced by the callee's results; partial overlap of two pointer arguments is rejected;
+//   - `if c {..} else {..}` duplicates the continuation; early `return` ends a path;
+//   - for every set partition of the same-typed pointer positions the aliased cells are merged BEFORE
+//     the symbolic execution and one Lean def is emitted (f, f_z_eq_x, f_x_eq_y, f_all, ...). A def takes
+//     the initial value of every root whose initial value is read and returns the final value of ALL
+//     pointer-reachable roots (plus the Go return value when that is a field-like value or a bool).
 package main
 
-func runSLP() {}
+import (
+	_ "embed"
+	"encoding/json"
+	"flag"
+	"fmt"
+	"go/ast"
+	"go/build/constraint"
+	"go/parser"
+	"go/token"
+	"math/big"
+	"os"
+	"path/filepath"
+	"sort"
+	"strconv"
+	"strings"
+)
+
+// ---------------------------------------------------------------- configuration
+
+type towerPkg struct {
+	name      string   // Lean namespace component
+	dir       string   // tower package (relative to repo)
+	baseDir   string   // base field package
+	baseFiles []string // files of the base package that contain translatable helpers
+}
+
+var towerPkgs = []towerPkg{
+	{"bn254", "ecc/bn254/internal/fptower", "ecc/bn254/fp", nil},
+	{"bls12_381", "ecc/bls12-381/internal/fptower", "ecc/bls12-381/fp", nil},
+	{"bls12_377", "ecc/bls12-377/internal/fptower", "ecc/bls12-377/fp", []string{"element_utils.go"}},
+	{"bls24_315", "ecc/bls24-315/internal/fptower", "ecc/bls24-315/fp", nil},
+	{"bls24_317", "ecc/bls24-317/internal/fptower", "ecc/bls24-317/fp", nil},
+	{"bw6_761", "ecc/bw6-761/internal/fptower", "ecc/bw6-761/fp", []string{"bw6_utils.go"}},
+	{"bw6_633", "ecc/bw6-633/internal/fptower", "ecc/bw6-633/fp", []string{"bw6_utils.go"}},
+	{"koalabear", "field/koalabear/extensions", "field/koalabear", nil},
+	{"babybear", "field/babybear/extensions", "field/babybear", nil},
+	{"goldilocks", "field/goldilocks/extensions", "field/goldilocks", nil},
+}
+
+// functions that must translate (hand-maintained expectation; `-slp-print-targets` prints the current set)
+//
+//go:embed slp_targets.txt
+var slpTargets string
+
+// alias theorems that are known to fail on the unchanged tree (findings): emitted as comments
+//
+//go:embed slp_known.txt
+var slpKnown string
+
+func knownAliasFinding(pkg, def string) bool {
+	for _, l := range strings.Split(slpKnown, "\n") {
+		if strings.TrimSpace(l) == pkg+" "+def {
+			return true
+		}
+	}
+	return false
+}
+
+const maxPatterns = 15 // above this only partitions whose merged blocks contain a written position
+
+// ---------------------------------------------------------------- types, values, locations
+
+type typ struct {
+	base   bool
+	name   string // Lean structure name (E2, Arr5)
+	arr    bool
+	fields []string
+	ftypes []*typ
+}
+
+func (t *typ) lean() string {
+	switch {
+	case t.base:
+		return "F"
+	case t.arr:
+		return "(" + t.name + " " + t.ftypes[0].lean() + ")"
+	}
+	return "(" + t.name + " F)"
+}
+
+func (t *typ) same(u *typ) bool { return t.lean() == u.lean() }
+
+type val struct {
+	t      *typ
+	term   string // atomic Lean term when kids == nil
+	kids   []*val
+	origin string // root whose INITIAL value this term denotes ("" for computed terms)
+}
+
+type loc struct {
+	root string
+	path []int
+}
+
+func (l loc) eq(m loc) bool { return l.root == m.root && fmt.Sprint(l.path) == fmt.Sprint(m.path) }
+func (l loc) overlaps(m loc) bool {
+	if l.root != m.root {
+		return false
+	}
+	n := min(len(l.path), len(m.path))
+	return fmt.Sprint(l.path[:n]) == fmt.Sprint(m.path[:n])
+}
+
+type slpErr string
+
+func reject(f string, a ...any) { panic(slpErr(fmt.Sprintf(f, a...))) }
+
+// ---------------------------------------------------------------- package context
+
+type param struct {
+	name  string
+	t     *typ
+	ptr   bool
+	isInt bool
+}
+
+type fn struct {
+	key    string // "E2.Mul", "mulGenericE2", "Element.MulByNonResidue"
+	decl   *ast.FuncDecl
+	inBase bool
+	pos    []*param // receiver (if any) followed by the parameters
+	kind   int      // kProc (nothing / pointer returned), kValue (field-like value), kBool
+	ret    *typ
+	err    string
+}
+
+const (
+	kProc = iota
+	kValue
+	kBool
+)
+
+type global struct {
+	name    string
+	t       *typ
+	lit     ast.Expr         // literal initialiser (composite literal) or nil
+	elems   map[int]ast.Expr // array elements assigned literally in init()
+	mutated bool             // assigned outside init(): never a constant
+	inBase  bool
+}
+
+type pkgCtx struct {
+	cfg      towerPkg
+	fc       *fieldConsts
+	baseQual map[*ast.File]string
+	fileOf   map[*ast.FuncDecl]*ast.File
+	structs  map[string]*typ
+	arrays   map[string]*typ
+	funcs    map[string]*fn
+	fnOrder  []string
+	globals  map[string]*global
+	variants map[string]*variant
+	order    []*variant
+	consts   []string // emitted Lean constant defs
+	constSet map[string]bool
+	known    []string // alias theorems suppressed as known findings
+}
+
+type variant struct {
+	f        *fn
+	pat      []int // block id per position (non-pointer positions get their own block)
+	name     string
+	roots    []string // one per block, order of first occurrence
+	rtypes   []*typ
+	isPtr    []bool // root is reachable through a pointer (part of the result)
+	inUsed   []bool
+	written  []bool
+	gparams  []string // globals that are parameters (not literal), transitive
+	retRoot  int      // index into roots of the returned pointer, -1 if none
+	fresh    bool     // returns a pointer to a fresh cell: modelled as a value result of type ret
+	ret      *typ
+	classes  map[string]bool
+	body     *code
+	err      string
+	busy     bool
+	nPtrRoot int
+}
+
+type code struct {
+	lines    []string
+	cond     string
+	thn, els *code
+	result   string
+}
+
+// ---------------------------------------------------------------- loading a package
+
+func buildOK(f *ast.File, fname string) bool {
+	for _, suf := range []string{"_amd64.go", "_arm64.go", "_test.go"} {
+		if strings.HasSuffix(fname, suf) {
+			return false
+		}
+	}
+	for _, cg := range f.Comments {
+		if cg.Pos() > f.Package {
+			break
+		}
+		for _, c := range cg.List {
+			if constraint.IsGoBuild(c.Text) {
+				x, err := constraint.Parse(c.Text)
+				if err != nil {
+					die("bad build constraint in %s", fname)
+				}
+				return x.Eval(func(tag string) bool { return tag == "purego" })
+			}
+		}
+	}
+	return true
+}
+
+func loadPkg(cfg towerPkg) *pkgCtx {
+	p := &pkgCtx{cfg: cfg, fc: extractField(cfg.baseDir), baseQual: map[*ast.File]string{}, fileOf: map[*ast.FuncDecl]*ast.File{},
+		structs: map[string]*typ{}, arrays: map[string]*typ{}, funcs: map[string]*fn{}, globals: map[string]*global{},
+		variants: map[string]*variant{}, constSet: map[string]bool{}}
+	fset := token.NewFileSet()
+	var files []*ast.File
+	inBase := map[*ast.File]bool{}
+	load := func(path string, base bool) {
+		f, err := parser.ParseFile(fset, path, nil, parser.ParseComments)
+		if err != nil {
+			die("parse %s: %v", path, err)
+		}
+		if !buildOK(f, filepath.Base(path)) {
+			return
+		}
+		for _, im := range f.Imports {
+			ip := strings.Trim(im.Path.Value, "\"")
+			if strings.HasSuffix(ip, "/"+cfg.baseDir) {
+				p.baseQual[f] = filepath.Base(ip)
+				if im.Name != nil {
+					p.baseQual[f] = im.Name.Name
+				}
+			}
+		}
+		files = append(files, f)
+		inBase[f] = base
+	}
+	for _, bf := range cfg.baseFiles {
+		load(filepath.Join(repo, cfg.baseDir, bf), true)
+	}
+	names, _ := filepath.Glob(filepath.Join(repo, cfg.dir, "*.go"))
+	sort.Strings(names)
+	for _, n := range names {
+		load(n, false)
+	}
+	// pass 1: struct types whose fields are all field-like (iterate to a fixed point: order of declaration is free)
+	for changed := true; changed; {
+		changed = false
+		for _, f := range files {
+			if inBase[f] {
+				continue
+			}
+			for _, d := range f.Decls {
+				gd, ok := d.(*ast.GenDecl)
+				if !ok || gd.Tok != token.TYPE {
+					continue
+				}
+				for _, sp := range gd.Specs {
+					ts := sp.(*ast.TypeSpec)
+					st, ok := ts.Type.(*ast.StructType)
+					if !ok || p.structs[ts.Name.Name] != nil {
+						continue
+					}
+					t := &typ{name: ts.Name.Name}
+					good := len(st.Fields.List) > 0
+					for _, fl := range st.Fields.List {
+						ft, _, _ := p.typeOf(f, false, fl.Type)
+						if ft == nil || len(fl.Names) == 0 {
+							good = false
+							break
+						}
+						for _, nm := range fl.Names {
+							t.fields = append(t.fields, nm.Name)
+							t.ftypes = append(t.ftypes, ft)
+						}
+					}
+					if good {
+						p.structs[t.name] = t
+						changed = true
+					}
+				}
+			}
+		}
+	}
+	// pass 2: functions and globals
+	for _, f := range files {
+		for _, d := range f.Decls {
+			switch d := d.(type) {
+			case *ast.FuncDecl:
+				if d.Body == nil {
+					continue
+				}
+				if d.Name.Name == "init" && d.Recv == nil {
+					p.scanInit(f, d)
+					continue
+				}
+				p.addFunc(f, inBase[f], d)
+			case *ast.GenDecl:
+				if d.Tok != token.VAR {
+					continue
+				}
+				for _, sp := range d.Specs {
+					vs := sp.(*ast.ValueSpec)
+					te := vs.Type
+					if cl, ok := firstExpr(vs.Values).(*ast.CompositeLit); ok && te == nil {
+						te = cl.Type
+					}
+					if te == nil {
+						continue
+					}
+					t, ptr, _ := p.typeOf(f, inBase[f], te)
+					if t == nil || ptr {
+						continue
+					}
+					for i, nm := range vs.Names {
+						g := &global{name: nm.Name, t: t, elems: map[int]ast.Expr{}, inBase: inBase[f]}
+						if i < len(vs.Values) {
+							g.lit = vs.Values[i]
+						}
+						p.globals[nm.Name] = g
+					}
+				}
+			}
+		}
+	}
+	// globals assigned outside init() (and not shadowed by a local of the same name) are not constants
+	for _, k := range p.fnOrder {
+		d := p.funcs[k].decl
+		local := map[string]bool{}
+		ast.Inspect(d, func(n ast.Node) bool {
+			switch n := n.(type) {
+			case *ast.Field:
+				for _, nm := range n.Names {
+					local[nm.Name] = true
+				}
+			case *ast.ValueSpec:
+				for _, nm := range n.Names {
+					local[nm.Name] = true
+				}
+			case *ast.AssignStmt:
+				if n.Tok == token.DEFINE {
+					for _, l := range n.Lhs {
+						if id, ok := l.(*ast.Ident); ok {
+							local[id.Name] = true
+						}
+					}
+				}
+			}
+			return true
+		})
+		ast.Inspect(d.Body, func(n ast.Node) bool {
+			if as, ok := n.(*ast.AssignStmt); ok && as.Tok != token.DEFINE {
+				for _, l := range as.Lhs {
+					if id := rootIdent(l); id != nil && !local[id.Name] && p.globals[id.Name] != nil {
+						p.globals[id.Name].mutated = true
+					}
+				}
+			}
+			return true
+		})
+	}
+	return p
+}
+
+func firstExpr(es []ast.Expr) ast.Expr {
+	if len(es) == 1 {
+		return es[0]
+	}
+	return nil
+}
+
+func rootIdent(e ast.Expr) *ast.Ident {
+	for {
+		switch x := e.(type) {
+		case *ast.Ident:
+			return x
+		case *ast.SelectorExpr:
+			e = x.X
+		case *ast.IndexExpr:
+			e = x.X
+		case *ast.ParenExpr:
+			e = x.X
+		case *ast.StarExpr:
+			e = x.X
+		default:
+			return nil
+		}
+	}
+}
+
+// scanInit records `g[i] = <composite literal>` / `g = <composite literal>` statements of init().
+func (p *pkgCtx) scanInit(f *ast.File, d *ast.FuncDecl) {
+	for _, s := range d.Body.List {
+		as, ok := s.(*ast.AssignStmt)
+		if !ok || len(as.Lhs) != 1 || as.Tok != token.ASSIGN {
+			continue
+		}
+		if _, ok := as.Rhs[0].(*ast.CompositeLit); !ok {
+			continue
+		}
+		switch l := as.Lhs[0].(type) {
+		case *ast.Ident:
+			if g := p.globals[l.Name]; g != nil {
+				g.lit = as.Rhs[0]
+			}
+		case *ast.IndexExpr:
+			if id, ok := l.X.(*ast.Ident); ok {
+				if g := p.globals[id.Name]; g != nil {
+					if i := litInt(l.Index); i != nil {
+						g.elems[int(i.Int64())] = as.Rhs[0]
+					}
+				}
+			}
+		}
+	}
+}
+
+// typeOf: Go type expression -> (field-like type, isPointer, isInt); nil when not field-like.
+func (p *pkgCtx) typeOf(f *ast.File, inBase bool, e ast.Expr) (*typ, bool, bool) {
+	switch x := e.(type) {
+	case *ast.StarExpr:
+		t, ptr, _ := p.typeOf(f, inBase, x.X)
+		if t == nil || ptr {
+			return nil, false, false
+		}
+		return t, true, false
+	case *ast.Ident:
+		if x.Name == "int" {
+			return nil, false, true
+		}
+		if inBase && x.Name == "Element" {
+			return baseT, false, false
+		}
+		if t := p.structs[x.Name]; t != nil && !inBase {
+			return t, false, false
+		}
+	case *ast.SelectorExpr:
+		if id, ok := x.X.(*ast.Ident); ok && id.Name == p.baseQual[f] && x.Sel.Name == "Element" && !inBase {
+			return baseT, false, false
+		}
+	case *ast.ArrayType:
+		n := litInt(x.Len)
+		et, ptr, _ := p.typeOf(f, inBase, x.Elt)
+		if n == nil || et == nil || ptr || n.Int64() < 1 || n.Int64() > 32 {
+			return nil, false, false
+		}
+		key := fmt.Sprintf("[%d]%s", n.Int64(), et.lean())
+		if t := p.arrays[key]; t != nil {
+			return t, false, false
+		}
+		t := &typ{arr: true, name: fmt.Sprintf("Arr%d", n.Int64())}
+		for i := 0; i < int(n.Int64()); i++ {
+			t.fields = append(t.fields, fmt.Sprintf("e%d", i))
+			t.ftypes = append(t.ftypes, et)
+		}
+		p.arrays[key] = t
+		return t, false, false
+	case *ast.ParenExpr:
+		return p.typeOf(f, inBase, x.X)
+	}
+	return nil, false, false
+}
+
+var baseT = &typ{base: true, name: "F"}
+
+func (p *pkgCtx) addFunc(f *ast.File, inBase bool, d *ast.FuncDecl) {
+	fnv := &fn{decl: d, inBase: inBase, key: d.Name.Name}
+	p.fileOf[d] = f
+	bad := func(s string) { fnv.err = s }
+	if d.Type.TypeParams != nil {
+		bad("generic function")
+	}
+	if d.Recv != nil {
+		fl := d.Recv.List[0]
+		t, ptr, _ := p.typeOf(f, inBase, fl.Type)
+		if t == nil {
+			return // receiver is not field-like: not our business
+		}
+		rn := t.name
+		if t.base {
+			rn = "Element"
+		}
+		fnv.key = rn + "." + d.Name.Name
+		if !ptr || len(fl.Names) != 1 {
+			bad("value receiver")
+		} else {
+			fnv.pos = append(fnv.pos, &param{name: fl.Names[0].Name, t: t, ptr: true})
+		}
+	}
+	for _, fl := range d.Type.Params.List {
+		t, ptr, isInt := p.typeOf(f, inBase, fl.Type)
+		if t == nil && !isInt {
+			bad("parameter of unsupported type " + exprStr(fl.Type))
+		}
+		for _, nm := range fl.Names {
+			fnv.pos = append(fnv.pos, &param{name: nm.Name, t: t, ptr: ptr, isInt: isInt})
+		}
+	}
+	if r := d.Type.Results; r != nil {
+		if len(r.List) != 1 || len(r.List[0].Names) > 1 {
+			bad("multiple results")
+		} else if id, ok := r.List[0].Type.(*ast.Ident); ok && id.Name == "bool" {
+			fnv.kind = kBool
+		} else {
+			t, ptr, _ := p.typeOf(f, inBase, r.List[0].Type)
+			switch {
+			case t == nil:
+				bad("result of unsupported type " + exprStr(r.List[0].Type))
+			case !ptr:
+				fnv.kind, fnv.ret = kValue, t
+			}
+			if len(r.List[0].Names) == 1 {
+				bad("named result")
+			}
+		}
+	}
+	if d.Recv == nil {
+		// plain functions are only interesting when they touch field-like data
+		any := fnv.ret != nil
+		for _, q := range fnv.pos {
+			any = any || q.t != nil
+		}
+		if !any {
+			return
+		}
+	}
+	if _, dup := p.funcs[fnv.key]; dup {
+		die("%s: duplicate function %s under the selected build tags", p.cfg.name, fnv.key)
+	}
+	p.funcs[fnv.key] = fnv
+	p.fnOrder = append(p.fnOrder, fnv.key)
+}
+
+func exprStr(e ast.Expr) string {
+	switch x := e.(type) {
+	case *ast.Ident:
+		return x.Name
+	case *ast.SelectorExpr:
+		return exprStr(x.X) + "." + x.Sel.Name
+	case *ast.StarExpr:
+		return "*" + exprStr(x.X)
+	case *ast.ArrayType:
+		return "[]" + exprStr(x.Elt)
+	case *ast.IndexExpr:
+		return exprStr(x.X) + "[..]"
+	case *ast.CallExpr:
+		return exprStr(x.Fun) + "(..)"
+	case *ast.UnaryExpr:
+		return x.Op.String() + exprStr(x.X)
+	case *ast.ParenExpr:
+		return exprStr(x.X)
+	}
+	return fmt.Sprintf("%T", e)
+}
+
+// ---------------------------------------------------------------- alias patterns
+
+// partitions of the positions of f: same-typed pointer positions may share a block.
+func (f *fn) partitions() [][]int {
+	n := len(f.pos)
+	var out [][]int
+	cur := make([]int, n)
+	var rec func(i, nb int)
+	rec = func(i, nb int) {
+		if i == n {
+			out = append(out, append([]int(nil), cur...))
+			return
+		}
+		if f.pos[i].ptr {
+			seen := map[int]bool{}
+			for j := 0; j < i; j++ {
+				if f.pos[j].ptr && f.pos[j].t.same(f.pos[i].t) && !seen[cur[j]] {
+					seen[cur[j]] = true
+					cur[i] = cur[j]
+					rec(i+1, nb)
+				}
+			}
+		}
+		cur[i] = nb
+		rec(i+1, nb+1)
+	}
+	rec(0, 0)
+	// base pattern (all distinct) first
+	sort.SliceStable(out, func(a, b int) bool { return maxOf(out[a]) > maxOf(out[b]) })
+	return out
+}
+
+func maxOf(xs []int) int {
+	m := -1
+	for _, x := range xs {
+		m = max(m, x)
+	}
+	return m
+}
+
+func (f *fn) patName(pat []int) string {
+	blocks := map[int][]string{}
+	var ids []int
+	nptr := 0
+	for i, b := range pat {
+		if f.pos[i].ptr {
+			nptr++
+		}
+		if _, ok := blocks[b]; !ok {
+			ids = append(ids, b)
+		}
+		blocks[b] = append(blocks[b], f.pos[i].name)
+	}
+	var parts []string
+	for _, b := range ids {
+		if len(blocks[b]) > 1 {
+			if len(blocks[b]) == nptr && nptr > 2 {
+				return "_all"
+			}
+			parts = append(parts, strings.Join(blocks[b], "_eq_"))
+		}
+	}
+	if len(parts) == 0 {
+		return ""
+	}
+	return "_" + strings.Join(parts, "__")
+}
+
+func leanFn(key string) string {
+	if strings.HasPrefix(key, "Element.") {
+		return "Fp." + strings.TrimPrefix(key, "Element.")
+	}
+	return key
+}
+
+// ---------------------------------------------------------------- symbolic execution
+
+type state struct {
+	cells map[string]*val
+	ptrs  map[string]loc
+}
+
+func (s *state) clone() *state {
+	c := &state{cells: map[string]*val{}, ptrs: map[string]loc{}}
+	for k, v := range s.cells {
+		c.cells[k] = v
+	}
+	for k, v := range s.ptrs {
+		c.ptrs[k] = v
+	}
+	return c
+}
+
+type tr struct {
+	p         *pkgCtx
+	v         *variant
+	file      *ast.File
+	ctr       map[string]int
+	used      map[string]bool // roots whose initial value is read
+	wr        map[string]bool // roots written
+	out       *code           // block under construction
+	gp        map[string]bool
+	anon      int
+	ints      map[string]bool // int parameters (loop bounds)
+	paramRoot map[string]bool
+	loop      int // > 0 inside a loop body
+}
+
+func zeroVal(t *typ) *val {
+	if t.base {
+		return &val{t: t, term: "(0 : F)"}
+	}
+	v := &val{t: t}
+	for _, ft := range t.ftypes {
+		v.kids = append(v.kids, zeroVal(ft))
+	}
+	return v
+}
+
+func (x *tr) need(cs ...string) {
+	for _, c := range cs {
+		x.v.classes[c] = true
+	}
+}
+
+// read materialises a value as a Lean term (and records the use of initial values).
+func (x *tr) read(v *val) string {
+	if v.kids == nil {
+		if v.origin != "" {
+			x.used[v.origin] = true
+		}
+		if strings.HasPrefix(v.term, "(0 :") {
+			x.need("Zero")
+		}
+		return v.term
+	}
+	parts := []string{v.t.name + ".mk"}
+	for _, k := range v.kids {
+		parts = append(parts, x.read(k))
+	}
+	return "(" + strings.Join(parts, " ") + ")"
+}
+
+func kid(v *val, i int) *val {
+	if v.kids != nil {
+		return v.kids[i]
+	}
+	return &val{t: v.t.ftypes[i], term: v.term + "." + v.t.fields[i], origin: v.origin}
+}
+
+func get(v *val, path []int) *val {
+	for _, i := range path {
+		v = kid(v, i)
+	}
+	return v
+}
+
+func set(v *val, path []int, nv *val) *val {
+	if len(path) == 0 {
+		return nv
+	}
+	c := &val{t: v.t}
+	for i := range v.t.fields {
+		c.kids = append(c.kids, kid(v, i))
+	}
+	c.kids[path[0]] = set(c.kids[path[0]], path[1:], nv)
+	return c
+}
+
+func (x *tr) typeAt(s *state, l loc) *typ {
+	t := s.cells[l.root].t
+	for _, i := range l.path {
+		t = t.ftypes[i]
+	}
+	return t
+}
+
+func (x *tr) write(s *state, l loc, nv *val) {
+	if strings.HasPrefix(l.root, "g:") {
+		reject("write to package-level variable %s", l.root[2:])
+	}
+	if !x.typeAt(s, l).same(nv.t) {
+		reject("type mismatch in assignment to %s", x.locName(s, l))
+	}
+	s.cells[l.root] = set(s.cells[l.root], l.path, nv)
+	x.wr[l.root] = true
+}
+
+func (x *tr) locName(s *state, l loc) string {
+	n := strings.TrimPrefix(l.root, "g:")
+	t := s.cells[l.root].t
+	for _, i := range l.path {
+		f := t.fields[i]
+		if t.arr {
+			f = f[1:]
+		}
+		n += f
+		t = t.ftypes[i]
+	}
+	return n
+}
+
+func (x *tr) fresh(base string) string {
+	x.ctr[base]++
+	return fmt.Sprintf("%s_%d", base, x.ctr[base])
+}
+
+func (x *tr) emit(name, rhs string) { x.out.lines = append(x.out.lines, "let "+name+" := "+rhs) }
+
+// assign a freshly computed base/struct term to a location
+func (x *tr) def(s *state, l loc, rhs string) {
+	n := x.fresh(x.locName(s, l))
+	x.emit(n, rhs)
+	x.write(s, l, &val{t: x.typeAt(s, l), term: n})
+}
+
+func (x *tr) newRoot(s *state, name string, v *val) {
+	if _, dup := s.cells[name]; dup {
+		reject("redeclaration of %s", name)
+	}
+	if _, dup := s.ptrs[name]; dup {
+		reject("redeclaration of %s", name)
+	}
+	s.cells[name] = v
+}
+
+// global root, created on first use
+func (x *tr) globalRoot(s *state, name string) bool {
+	g := x.p.globals[name]
+	if g == nil {
+		return false
+	}
+	if _, ok := s.cells["g:"+name]; !ok {
+		if x.p.constOf(g) {
+			x.need("NatCast")
+			s.cells["g:"+name] = &val{t: g.t, term: "(" + leanGlobal(g) + " (F := F))"}
+		} else {
+			x.gp[name] = true
+			s.cells["g:"+name] = &val{t: g.t, term: name}
+		}
+	}
+	return true
+}
+
+func leanGlobal(g *global) string { return "const_" + g.name }
+
+func (x *tr) fieldIndex(t *typ, name string) int {
+	for i, f := range t.fields {
+		if f == name && !t.arr {
+			return i
+		}
+	}
+	reject("no field %s in %s", name, t.name)
+	return -1
+}
+
+// evalLoc: addressable expression -> location (pointer variables are dereferenced implicitly)
+func (x *tr) evalLoc(s *state, e ast.Expr) loc {
+	switch e := e.(type) {
+	case *ast.Ident:
+		if l, ok := s.ptrs[e.Name]; ok {
+			return l
+		}
+		if _, ok := s.cells[e.Name]; ok {
+			return loc{root: e.Name}
+		}
+		if x.globalRoot(s, e.Name) {
+			return loc{root: "g:" + e.Name}
+		}
+		reject("unknown identifier %s", e.Name)
+	case *ast.ParenExpr:
+		return x.evalLoc(s, e.X)
+	case *ast.StarExpr:
+		return x.evalPtr(s, e.X)
+	case *ast.SelectorExpr:
+		var l loc
+		if c, ok := e.X.(*ast.CallExpr); ok {
+			l = x.evalPtr(s, c)
+		} else {
+			l = x.evalLoc(s, e.X)
+		}
+		t := x.typeAt(s, l)
+		return loc{l.root, append(append([]int(nil), l.path...), x.fieldIndex(t, e.Sel.Name))}
+	case *ast.IndexExpr:
+		l := x.evalLoc(s, e.X)
+		t := x.typeAt(s, l)
+		i := litInt(e.Index)
+		if !t.arr || i == nil || int(i.Int64()) >= len(t.fields) {
+			reject("unsupported index expression %s", exprStr(e))
+		}
+		return loc{l.root, append(append([]int(nil), l.path...), int(i.Int64()))}
+	}
+	reject("unsupported addressable expression %s", exprStr(e))
+	return loc{}
+}
+
+// evalPtr: expression of pointer type -> location pointed to
+func (x *tr) evalPtr(s *state, e ast.Expr) loc {
+	switch e := e.(type) {
+	case *ast.Ident:
+		if l, ok := s.ptrs[e.Name]; ok {
+			return l
+		}
+		reject("%s is not a pointer variable", e.Name)
+	case *ast.ParenExpr:
+		return x.evalPtr(s, e.X)
+	case *ast.UnaryExpr:
+		if e.Op == token.AND {
+			if cl, ok := e.X.(*ast.CompositeLit); ok {
+				x.anon++
+				n := fmt.Sprintf("lit%d", x.anon)
+				x.newRoot(s, n, x.composite(s, cl))
+				return loc{root: n}
+			}
+			return x.evalLoc(s, e.X)
+		}
+	case *ast.CallExpr:
+		l, v, _ := x.call(s, e)
+		if v != nil || l == nil {
+			reject("call %s does not return a pointer", exprStr(e))
+		}
+		return *l
+	}
+	reject("unsupported pointer expression %s", exprStr(e))
+	return loc{}
+}
+
+// evalVal: expression of field-like value type -> value
+func (x *tr) evalVal(s *state, e ast.Expr) *val {
+	switch e := e.(type) {
+	case *ast.ParenExpr:
+		return x.evalVal(s, e.X)
+	case *ast.CompositeLit:
+		return x.composite(s, e)
+	case *ast.CallExpr:
+		_, v, _ := x.call(s, e)
+		if v == nil {
+			reject("call %s does not return a value", exprStr(e))
+		}
+		return v
+	case *ast.Ident:
+		if _, ok := s.ptrs[e.Name]; ok {
+			reject("pointer %s used as a value", e.Name)
+		}
+	}
+	l := x.evalLoc(s, e)
+	return get(s.cells[l.root], l.path)
+}
+
+// montgomery literal -> canonical value
+func (x *tr) baseLit(cl *ast.CompositeLit) *val {
+	fc := x.p.fc
+	n := new(big.Int)
+	for i, el := range cl.Elts {
+		v := litInt(el)
+		if v == nil {
+			reject("non-literal limb in base-field literal")
+		}
+		n.Add(n, new(big.Int).Lsh(v, uint(i*fc.word)))
+	}
+	limbs := int(fc.consts["Limbs"].Int64())
+	if len(cl.Elts) != limbs && len(cl.Elts) != 0 {
+		reject("base-field literal with %d limbs", len(cl.Elts))
+	}
+	r := new(big.Int).Lsh(big.NewInt(1), uint(limbs*fc.word))
+	rinv := new(big.Int).ModInverse(r, fc.modulus)
+	n.Mul(n, rinv).Mod(n, fc.modulus)
+	x.need("NatCast")
+	return &val{t: baseT, term: fmt.Sprintf("((%s : Nat) : F)", n)}
+}
+
+func (x *tr) composite(s *state, cl *ast.CompositeLit) *val {
+	t, ptr, _ := x.p.typeOf(x.file, x.v.f.inBase, cl.Type)
+	if t == nil || ptr {
+		reject("composite literal of unsupported type %s", exprStr(cl.Type))
+	}
+	return x.compositeOf(s, t, cl)
+}
+
+func (x *tr) compositeOf(s *state, t *typ, cl *ast.CompositeLit) *val {
+	if t.base {
+		return x.baseLit(cl)
+	}
+	v := zeroVal(t)
+	for i, el := range cl.Elts {
+		idx := i
+		if kv, ok := el.(*ast.KeyValueExpr); ok {
+			if t.arr {
+				k := litInt(kv.Key)
+				if k == nil {
+					reject("array literal key")
+				}
+				idx = int(k.Int64())
+			} else {
+				idx = x.fieldIndex(t, kv.Key.(*ast.Ident).Name)
+			}
+			el = kv.Value
+		}
+		if idx >= len(t.fields) {
+			reject("too many elements in literal")
+		}
+		var ev *val
+		if c2, ok := el.(*ast.CompositeLit); ok && c2.Type == nil {
+			ev = x.compositeOf(s, t.ftypes[idx], c2)
+		} else {
+			ev = x.evalVal(s, el)
+		}
+		if !ev.t.same(t.ftypes[idx]) {
+			reject("literal element type mismatch")
+		}
+		v.kids[idx] = ev
+	}
+	return v
+}
+
+// ---- conditions
+
+func (x *tr) cond(s *state, e ast.Expr) string {
+	switch e := e.(type) {
+	case *ast.ParenExpr:
+		return x.cond(s, e.X)
+	case *ast.UnaryExpr:
+		if e.Op == token.NOT {
+			return "(!" + x.cond(s, e.X) + ")"
+		}
+	case *ast.BinaryExpr:
+		if e.Op == token.LAND {
+			return "(" + x.cond(s, e.X) + " && " + x.cond(s, e.Y) + ")"
+		}
+		if e.Op == token.LOR {
+			return "(" + x.cond(s, e.X) + " || " + x.cond(s, e.Y) + ")"
+		}
+	case *ast.CallExpr:
+		_, _, b := x.call(s, e)
+		if b != "" {
+			return b
+		}
+	case *ast.Ident:
+		if e.Name == "true" || e.Name == "false" {
+			return e.Name
+		}
+	}
+	reject("unsupported condition %s", exprStr(e))
+	return ""
+}
+
+// ---- calls
+
+// primitive operations of the base field: name -> arity and Lean term
+func (x *tr) prim(op string, a []string) (string, bool) {
+	switch {
+	case op == "Add" && len(a) == 2:
+		x.need("Add")
+		return a[0] + " + " + a[1], true
+	case op == "Sub" && len(a) == 2:
+		x.need("Sub")
+		return a[0] + " - " + a[1], true
+	case op == "Mul" && len(a) == 2:
+		x.need("Mul")
+		return a[0] + " * " + a[1], true
+	case op == "Div" && len(a) == 2:
+		x.need("Mul", "Inv")
+		return a[0] + " * " + a[1] + "⁻¹", true
+	case op == "Square" && len(a) == 1:
+		x.need("Mul")
+		return a[0] + " * " + a[0], true
+	case op == "Double" && len(a) == 1:
+		x.need("Add")
+		return a[0] + " + " + a[0], true
+	case op == "Neg" && len(a) == 1:
+		x.need("Neg")
+		return "-" + a[0], true
+	case op == "Inverse" && len(a) == 1:
+		x.need("Inv")
+		return a[0] + "⁻¹", true
+	}
+	return "", false
+}
+
+var primArity = map[string]int{"Add": 2, "Sub": 2, "Mul": 2, "Div": 2, "Square": 1, "Double": 1, "Neg": 1, "Inverse": 1}
+
+func nTimes(n int, a string) string {
+	parts := make([]string, n)
+	for i := range parts {
+		parts[i] = a
+	}
+	return strings.Join(parts, " + ")
+}
+
+// call executes a call expression. Result: location (pointer result), value (value result) or Bool term.
+func (x *tr) call(s *state, c *ast.CallExpr) (*loc, *val, string) {
+	var recv *loc
+	var name string
+	switch f := c.Fun.(type) {
+	case *ast.Ident:
+		name = f.Name
+	case *ast.SelectorExpr:
+		name = f.Sel.Name
+		if id, ok := f.X.(*ast.Ident); ok && id.Name == x.p.baseQual[x.file] && !x.v.f.inBase && s.cells[id.Name] == nil {
+			// helper of the base package applied in place: fp.MulBy3(&x)
+			if strings.HasPrefix(name, "MulBy") && len(c.Args) == 1 {
+				if k, err := strconv.Atoi(name[5:]); err == nil && k >= 2 {
+					l := x.evalPtr(s, c.Args[0])
+					a := x.read(get(s.cells[l.root], l.path))
+					if k <= 5 {
+						x.need("Add")
+						x.def(s, l, nTimes(k, a))
+					} else {
+						x.need("NatCast", "Mul")
+						x.def(s, l, fmt.Sprintf("((%d : Nat) : F) * %s", k, a))
+					}
+					return nil, nil, ""
+				}
+			}
+			reject("unsupported base-package function %s.%s", id.Name, name)
+		}
+		var l loc
+		if cx, ok := f.X.(*ast.CallExpr); ok {
+			l = x.evalPtr(s, cx)
+		} else {
+			l = x.evalLoc(s, f.X)
+		}
+		recv = &l
+	default:
+		reject("unsupported call %s", exprStr(c))
+	}
+	if recv != nil && x.typeAt(s, *recv).base {
+		if r, done := x.baseCall(s, *recv, name, c); done {
+			return r.l, nil, r.b
+		}
+		return x.callFn(s, x.p.funcs["Element."+name], "Element."+name, recv, c)
+	}
+	key := name
+	if recv != nil {
+		key = x.typeAt(s, *recv).name + "." + name
+	}
+	return x.callFn(s, x.p.funcs[key], key, recv, c)
+}
+
+type baseRes struct {
+	l *loc
+	b string
+}
+
+func (x *tr) baseCall(s *state, dst loc, op string, c *ast.CallExpr) (baseRes, bool) {
+	cur := func() string { return x.read(get(s.cells[dst.root], dst.path)) }
+	argv := func(i int) string {
+		l := x.evalPtr(s, c.Args[i])
+		if !x.typeAt(s, l).base {
+			reject("argument %d of %s is not a base-field pointer", i, op)
+		}
+		return x.read(get(s.cells[l.root], l.path))
+	}
+	switch {
+	case op == "IsZero" && len(c.Args) == 0:
+		x.need("Zero", "DecidableEq")
+		return baseRes{b: "decide (" + cur() + " = 0)"}, true
+	case op == "IsOne" && len(c.Args) == 0:
+		x.need("One", "DecidableEq")
+		return baseRes{b: "decide (" + cur() + " = 1)"}, true
+	case op == "Equal" && len(c.Args) == 1:
+		x.need("DecidableEq")
+		return baseRes{b: "decide (" + cur() + " = " + argv(0) + ")"}, true
+	case op == "Set" && len(c.Args) == 1:
+		l := x.evalPtr(s, c.Args[0])
+		x.write(s, dst, get(s.cells[l.root], l.path))
+		return baseRes{l: &dst}, true
+	case op == "SetZero" && len(c.Args) == 0:
+		x.write(s, dst, zeroVal(baseT))
+		return baseRes{l: &dst}, true
+	case op == "SetOne" && len(c.Args) == 0:
+		x.need("One")
+		x.write(s, dst, &val{t: baseT, term: "(1 : F)"})
+		return baseRes{l: &dst}, true
+	case op == "SetUint64" && len(c.Args) == 1 && litInt(c.Args[0]) != nil:
+		x.need("NatCast")
+		x.write(s, dst, &val{t: baseT, term: fmt.Sprintf("((%s : Nat) : F)", litInt(c.Args[0]))})
+		return baseRes{l: &dst}, true
+	case op == "Halve" && len(c.Args) == 0:
+		x.need("Mul", "Inv", "Add", "One")
+		x.def(s, dst, cur()+" * ((1 : F) + 1)⁻¹")
+		return baseRes{}, true
+	}
+	if primArity[op] != len(c.Args) || len(c.Args) == 0 {
+		return baseRes{}, false
+	}
+	var a []string
+	for i := range c.Args {
+		a = append(a, argv(i))
+	}
+	rhs, _ := x.prim(op, a)
+	x.def(s, dst, rhs)
+	return baseRes{l: &dst}, true
+}
+
+func proj(i, n int) string {
+	switch {
+	case n == 1:
+		return ""
+	case i < n-1:
+		return strings.Repeat(".2", i) + ".1"
+	}
+	return strings.Repeat(".2", n-1)
+}
+
+func (x *tr) callFn(s *state, f *fn, key string, recv *loc, c *ast.CallExpr) (*loc, *val, string) {
+	if f == nil {
+		reject("call of %s, which is not a function of the package over field-like data", key)
+	}
+	if f.err != "" {
+		reject("call of untranslatable %s (%s)", key, f.err)
+	}
+	args := c.Args
+	np := len(f.pos)
+	if recv != nil {
+		np--
+	}
+	if len(args) != np || c.Ellipsis.IsValid() {
+		reject("argument count mismatch calling %s", key)
+	}
+	// evaluate the arguments left to right
+	locs := make([]*loc, len(f.pos))
+	vals := make([]string, len(f.pos))
+	ai := 0
+	for i, q := range f.pos {
+		switch {
+		case i == 0 && recv != nil:
+			locs[i] = recv
+		case q.isInt:
+			n := litInt(args[ai])
+			if n == nil {
+				if id, ok := args[ai].(*ast.Ident); ok && x.ints[id.Name] {
+					vals[i] = id.Name
+					x.used[id.Name] = true
+				} else {
+					reject("non-literal int argument calling %s", key)
+				}
+			} else {
+				vals[i] = n.String()
+			}
+			ai++
+		case q.ptr:
+			l := x.evalPtr(s, args[ai])
+			locs[i] = &l
+			ai++
+		default:
+			vals[i] = x.read(x.evalVal(s, args[ai]))
+			ai++
+		}
+		if locs[i] != nil && !x.typeAt(s, *locs[i]).same(q.t) {
+			reject("argument type mismatch calling %s", key)
+		}
+	}
+	// alias pattern at the call site
+	pat := make([]int, len(f.pos))
+	nb := 0
+	for i := range f.pos {
+		pat[i] = -1
+		for j := 0; j < i && locs[i] != nil; j++ {
+			if locs[j] == nil {
+				continue
+			}
+			if locs[i].eq(*locs[j]) && f.pos[i].t.same(f.pos[j].t) {
+				pat[i] = pat[j]
+				break
+			}
+			if locs[i].overlaps(*locs[j]) {
+				reject("partially overlapping pointer arguments calling %s", key)
+			}
+		}
+		if pat[i] < 0 {
+			pat[i] = nb
+			nb++
+		}
+	}
+	cv := x.p.translate(f, pat)
+	if cv.err != "" {
+		reject("call of %s: %s", cv.name, cv.err)
+	}
+	for k := range cv.classes {
+		x.need(k)
+	}
+	// build the call
+	parts := []string{cv.name}
+	rootLoc := make([]*loc, len(cv.roots))
+	for i := range f.pos {
+		b := pat[i]
+		if rootLoc[b] == nil && locs[i] != nil {
+			rootLoc[b] = locs[i]
+		}
+	}
+	for b := range cv.roots {
+		if !cv.inUsed[b] {
+			continue
+		}
+		if rootLoc[b] != nil {
+			parts = append(parts, x.read(get(s.cells[rootLoc[b].root], rootLoc[b].path)))
+		} else {
+			for i := range f.pos {
+				if pat[i] == b {
+					parts = append(parts, vals[i])
+				}
+			}
+		}
+	}
+	for _, g := range cv.gparams {
+		x.globalRoot(s, g)
+		parts = append(parts, x.read(s.cells["g:"+g]))
+	}
+	if len(parts) == 1 {
+		parts = append(parts, "(F := F)")
+	}
+	callTerm := strings.Join(parts, " ")
+	if f.kind == kBool {
+		return nil, nil, "(" + callTerm + ")"
+	}
+	// result components: [value] ++ pointer roots
+	type comp struct {
+		idx int
+		l   *loc
+	}
+	var consumed []comp
+	off := 0
+	if cv.hasVal() {
+		consumed = append(consumed, comp{0, nil})
+		off = 1
+	}
+	k := off
+	for b := range cv.roots {
+		if !cv.isPtr[b] {
+			continue
+		}
+		if cv.written[b] {
+			consumed = append(consumed, comp{k, rootLoc[b]})
+		}
+		k++
+	}
+	n := k
+	var ret *val
+	bind := func(cm comp, term string) {
+		if cm.l == nil {
+			ret = &val{t: cv.ret, term: term}
+		} else {
+			x.write(s, *cm.l, &val{t: x.typeAt(s, *cm.l), term: term})
+		}
+	}
+	switch len(consumed) {
+	case 0:
+	case 1:
+		base := "ret"
+		if consumed[0].l != nil {
+			base = x.locName(s, *consumed[0].l)
+		}
+		nm := x.fresh(base)
+		if p := proj(consumed[0].idx, n); p == "" {
+			x.emit(nm, callTerm)
+		} else {
+			x.emit(nm, "("+callTerm+")"+p)
+		}
+		bind(consumed[0], nm)
+	default:
+		nm := x.fresh("r")
+		x.emit(nm, callTerm)
+		for _, cm := range consumed {
+			bind(cm, nm+proj(cm.idx, n))
+		}
+	}
+	if f.kind == kValue {
+		return nil, ret, ""
+	}
+	if cv.fresh {
+		x.anon++
+		n := fmt.Sprintf("new%d", x.anon)
+		x.newRoot(s, n, ret)
+		return &loc{root: n}, nil, ""
+	}
+	if cv.retRoot >= 0 {
+		return rootLoc[cv.retRoot], nil, ""
+	}
+	return nil, nil, ""
+}
+
+// ---- statements
+
+func (x *tr) block(s *state, stmts []ast.Stmt) {
+	for i, st := range stmts {
+		switch st := st.(type) {
+		case *ast.EmptyStmt:
+		case *ast.BlockStmt:
+			x.block(s, append(append([]ast.Stmt(nil), st.List...), stmts[i+1:]...))
+			return
+		case *ast.DeclStmt:
+			gd := st.Decl.(*ast.GenDecl)
+			if gd.Tok != token.VAR {
+				reject("unsupported declaration")
+			}
+			for _, sp := range gd.Specs {
+				vs := sp.(*ast.ValueSpec)
+				if vs.Type == nil && len(vs.Names) == 1 && len(vs.Values) == 1 {
+					x.newRoot(s, vs.Names[0].Name, x.evalVal(s, vs.Values[0]))
+					continue
+				}
+				if vs.Type == nil || len(vs.Values) != 0 {
+					reject("unsupported var declaration")
+				}
+				t, ptr, _ := x.p.typeOf(x.file, x.v.f.inBase, vs.Type)
+				if t == nil || ptr {
+					reject("local variable of unsupported type %s", exprStr(vs.Type))
+				}
+				for _, nm := range vs.Names {
+					x.newRoot(s, nm.Name, zeroVal(t))
+				}
+			}
+		case *ast.ExprStmt:
+			c, ok := st.X.(*ast.CallExpr)
+			if !ok {
+				reject("unsupported expression statement")
+			}
+			x.call(s, c)
+		case *ast.AssignStmt:
+			x.assign(s, st)
+		case *ast.ReturnStmt:
+			if x.loop > 0 {
+				reject("return inside a loop")
+			}
+			x.ret(s, st)
+			return
+		case *ast.IfStmt:
+			if x.loop > 0 {
+				reject("if inside a loop")
+			}
+			if st.Init != nil {
+				reject("if statement with initialiser")
+			}
+			x.out.cond = x.cond(s, st.Cond)
+			rest := stmts[i+1:]
+			outer := x.out
+			s2 := s.clone()
+			outer.thn = &code{}
+			x.out = outer.thn
+			x.block(s, append(append([]ast.Stmt(nil), st.Body.List...), rest...))
+			outer.els = &code{}
+			x.out = outer.els
+			var eb []ast.Stmt
+			switch e := st.Else.(type) {
+			case nil:
+			case *ast.BlockStmt:
+				eb = e.List
+			default:
+				eb = []ast.Stmt{e}
+			}
+			x.block(s2, append(append([]ast.Stmt(nil), eb...), rest...))
+			return
+		case *ast.ForStmt:
+			x.loopStmt(s, st)
+		default:
+			reject("unsupported statement %T", st)
+		}
+	}
+	if x.loop == 0 {
+		x.ret(s, nil)
+	}
+}
+
+// `for i := 0; i < N; i++ { straight-line body not mentioning i }` with N a literal or an int parameter:
+// Nat.repeat of the body over the tuple of the roots the body writes.
+func (x *tr) loopStmt(s *state, st *ast.ForStmt) {
+	var iv string
+	if as, ok := st.Init.(*ast.AssignStmt); ok && as.Tok == token.DEFINE && len(as.Lhs) == 1 && litInt(as.Rhs[0]) != nil && litInt(as.Rhs[0]).Sign() == 0 {
+		iv = as.Lhs[0].(*ast.Ident).Name
+	}
+	cnd, _ := st.Cond.(*ast.BinaryExpr)
+	inc, _ := st.Post.(*ast.IncDecStmt)
+	if iv == "" || cnd == nil || cnd.Op != token.LSS || exprStr(cnd.X) != iv || inc == nil || inc.Tok != token.INC || exprStr(inc.X) != iv {
+		reject("unsupported loop header")
+	}
+	var bound string
+	if n := litInt(cnd.Y); n != nil {
+		bound = n.String()
+	} else if id, ok := cnd.Y.(*ast.Ident); ok && x.ints[id.Name] {
+		bound = id.Name
+		x.used[id.Name] = true
+	} else {
+		reject("loop bound is neither a literal nor an int parameter")
+	}
+	ast.Inspect(st.Body, func(n ast.Node) bool {
+		if id, ok := n.(*ast.Ident); ok && id.Name == iv {
+			reject("loop body uses the loop variable")
+		}
+		return true
+	})
+	run := func(s0 *state) *code {
+		saved := x.out
+		x.out = &code{}
+		x.loop++
+		x.block(s0, st.Body.List)
+		x.loop--
+		c := x.out
+		x.out = saved
+		return c
+	}
+	// pass 1 (discarded): which roots does the body write?
+	before := s.clone()
+	probe := s.clone()
+	savedCtr := map[string]int{}
+	for k, v := range x.ctr {
+		savedCtr[k] = v
+	}
+	run(probe)
+	x.ctr = savedCtr
+	var w []string
+	for r, v := range probe.cells {
+		if old, ok := before.cells[r]; ok && old != v {
+			w = append(w, r)
+		} else if !ok {
+			reject("declaration inside a loop body")
+		}
+	}
+	sort.Strings(w)
+	if len(w) == 0 {
+		return
+	}
+	// pass 2: body as a function of the tuple `st` of those roots
+	var init []string
+	for i, r := range w {
+		init = append(init, x.read(s.cells[r]))
+		s.cells[r] = &val{t: s.cells[r].t, term: "st" + proj(i, len(w))}
+	}
+	body := run(s)
+	var res []string
+	for _, r := range w {
+		res = append(res, x.read(s.cells[r]))
+	}
+	tuple := func(xs []string) string {
+		if len(xs) == 1 {
+			return xs[0]
+		}
+		return "(" + strings.Join(xs, ", ") + ")"
+	}
+	name := x.fresh("loop")
+	x.emit(name, "Nat.repeat (fun st =>\n    "+strings.Join(append(body.lines, tuple(res)), "\n    ")+") "+bound+" "+tuple(init))
+	for i, r := range w {
+		s.cells[r] = &val{t: s.cells[r].t, term: name + proj(i, len(w))}
+		x.wr[r] = true
+	}
+}
+
+func (x *tr) assign(s *state, st *ast.AssignStmt) {
+	if len(st.Lhs) != len(st.Rhs) {
+		reject("unsupported assignment")
+	}
+	switch st.Tok {
+	case token.DEFINE:
+		if len(st.Lhs) != 1 {
+			reject("unsupported multi-define")
+		}
+		id, ok := st.Lhs[0].(*ast.Ident)
+		if !ok {
+			reject("unsupported define")
+		}
+		rhs := st.Rhs[0]
+		if u, ok := rhs.(*ast.UnaryExpr); ok && u.Op == token.AND {
+			l := x.evalPtr(s, rhs)
+			if _, dup := s.cells[id.Name]; dup {
+				reject("redeclaration of %s", id.Name)
+			}
+			s.ptrs[id.Name] = l
+			return
+		}
+		if c, ok := rhs.(*ast.CallExpr); ok {
+			l, v, _ := x.call(s, c)
+			switch {
+			case l != nil:
+				s.ptrs[id.Name] = *l
+			case v != nil:
+				x.newRoot(s, id.Name, v)
+			default:
+				reject("unsupported define from call %s", exprStr(c))
+			}
+			return
+		}
+		x.newRoot(s, id.Name, x.evalVal(s, rhs))
+	case token.ASSIGN:
+		var vs []*val
+		for _, r := range st.Rhs {
+			vs = append(vs, x.evalVal(s, r))
+		}
+		var ls []loc
+		for _, l := range st.Lhs {
+			if id, ok := l.(*ast.Ident); ok {
+				if _, isPtr := s.ptrs[id.Name]; isPtr {
+					reject("assignment to pointer variable %s", id.Name)
+				}
+			}
+			ls = append(ls, x.evalLoc(s, l))
+		}
+		for i := range ls {
+			x.write(s, ls[i], vs[i])
+		}
+	default:
+		reject("unsupported assignment operator %s", st.Tok)
+	}
+}
+
+func (x *tr) ret(s *state, st *ast.ReturnStmt) {
+	f := x.v.f
+	var first string
+	switch {
+	case st == nil || len(st.Results) == 0:
+		if f.decl.Type.Results != nil {
+			reject("missing return value")
+		}
+	case f.kind == kBool:
+		x.out.result = x.cond(s, st.Results[0])
+		for r := range x.paramRoot {
+			if x.wr[r] {
+				reject("bool function writes through a pointer parameter")
+			}
+		}
+		return
+	case f.kind == kValue:
+		v := x.evalVal(s, st.Results[0])
+		if !v.t.same(f.ret) {
+			reject("return type mismatch")
+		}
+		first = x.read(v)
+	default:
+		l := x.evalPtr(s, st.Results[0])
+		if _, isParam := x.paramRoot[l.root]; !isParam && len(l.path) == 0 && !strings.HasPrefix(l.root, "g:") && x.v.retRoot < 0 {
+			// pointer to a fresh local / literal: the function allocates its result
+			x.v.fresh, x.v.ret = true, s.cells[l.root].t
+			first = x.read(s.cells[l.root])
+			break
+		}
+		if x.v.fresh {
+			reject("returns sometimes a fresh and sometimes a parameter pointer")
+		}
+		ri := -1
+		for i, r := range x.v.roots {
+			if r == l.root && len(l.path) == 0 && x.v.isPtr[i] {
+				ri = i
+			}
+		}
+		if ri < 0 || (x.v.retRoot >= 0 && x.v.retRoot != ri) {
+			reject("returned pointer is not one fixed parameter")
+		}
+		x.v.retRoot = ri
+	}
+	var parts []string
+	if first != "" {
+		parts = append(parts, first)
+	}
+	for i, r := range x.v.roots {
+		if x.v.isPtr[i] {
+			parts = append(parts, x.read(s.cells[r]))
+		}
+	}
+	switch len(parts) {
+	case 0:
+		reject("function has no field-like result")
+	case 1:
+		x.out.result = parts[0]
+	default:
+		x.out.result = "(" + strings.Join(parts, ", ") + ")"
+	}
+}
+
+// ---------------------------------------------------------------- translating one (function, pattern)
+
+func (p *pkgCtx) translate(f *fn, pat []int) *variant {
+	name := leanFn(f.key) + f.patName(pat)
+	if v := p.variants[name]; v != nil {
+		if v.busy {
+			v.err = "recursive call"
+		}
+		return v
+	}
+	v := &variant{f: f, pat: pat, name: name, classes: map[string]bool{}, retRoot: -1, busy: true, ret: f.ret}
+	p.variants[name] = v
+	blockName := map[int]string{}
+	for i, q := range f.pos {
+		blockName[pat[i]] += q.name
+	}
+	seen := map[int]bool{}
+	for i, q := range f.pos {
+		if seen[pat[i]] {
+			continue
+		}
+		seen[pat[i]] = true
+		v.roots = append(v.roots, blockName[pat[i]])
+		v.rtypes = append(v.rtypes, q.t)
+		v.isPtr = append(v.isPtr, q.ptr)
+	}
+	x := &tr{p: p, v: v, file: p.fileOf[f.decl], ints: map[string]bool{}, paramRoot: map[string]bool{}, ctr: map[string]int{}, used: map[string]bool{}, wr: map[string]bool{}, gp: map[string]bool{}, out: &code{}}
+	v.body = x.out
+	func() {
+		defer func() {
+			if r := recover(); r != nil {
+				e, ok := r.(slpErr)
+				if !ok {
+					panic(r)
+				}
+				v.err = string(e)
+			}
+		}()
+		if f.err != "" {
+			reject("%s", f.err)
+		}
+		s := &state{cells: map[string]*val{}, ptrs: map[string]loc{}}
+		for i, q := range f.pos {
+			r := blockName[pat[i]]
+			x.paramRoot[r] = true
+			switch {
+			case q.isInt:
+				x.ints[q.name] = true
+			case q.ptr:
+				if _, ok := s.cells[r]; !ok {
+					s.cells[r] = &val{t: q.t, term: r, origin: r}
+				}
+				s.ptrs[q.name] = loc{root: r}
+			default:
+				s.cells[r] = &val{t: q.t, term: r, origin: r}
+			}
+		}
+		x.block(s, f.decl.Body.List)
+	}()
+	for _, r := range v.roots {
+		v.inUsed = append(v.inUsed, x.used[r])
+		v.written = append(v.written, x.wr[r])
+	}
+	for g := range x.gp {
+		v.gparams = append(v.gparams, g)
+	}
+	sort.Strings(v.gparams)
+	v.busy = false
+	if v.err == "" {
+		p.order = append(p.order, v)
+	}
+	return v
+}
+
+// ---------------------------------------------------------------- constants
+
+func (p *pkgCtx) constOf(g *global) bool {
+	if g.mutated {
+		return false
+	}
+	if p.constSet[g.name] {
+		return true
+	}
+	// evaluate the literal with a throw-away translator (only literals are allowed inside)
+	x := &tr{p: p, v: &variant{f: &fn{inBase: g.inBase}, classes: map[string]bool{}}, ctr: map[string]int{}, used: map[string]bool{}, wr: map[string]bool{}, gp: map[string]bool{}, out: &code{}}
+	for f, q := range p.baseQual {
+		if q != "" {
+			x.file = f
+		}
+	}
+	ok := true
+	var term string
+	func() {
+		defer func() {
+			if r := recover(); r != nil {
+				if _, is := r.(slpErr); !is {
+					panic(r)
+				}
+				ok = false
+			}
+		}()
+		s := &state{cells: map[string]*val{}, ptrs: map[string]loc{}}
+		var v *val
+		switch {
+		case g.lit != nil:
+			cl, is := g.lit.(*ast.CompositeLit)
+			if !is {
+				reject("not a literal")
+			}
+			v = x.compositeOf(s, g.t, cl)
+		case g.t.arr && len(g.elems) == len(g.t.fields):
+			v = &val{t: g.t}
+			for i := range g.t.fields {
+				v.kids = append(v.kids, x.compositeOf(s, g.t.ftypes[i], g.elems[i].(*ast.CompositeLit)))
+			}
+		default:
+			reject("no literal initialiser")
+		}
+		term = x.read(v)
+	}()
+	if !ok || len(x.out.lines) > 0 || len(x.gp) > 0 {
+		return false
+	}
+	p.constSet[g.name] = true
+	p.consts = append(p.consts, fmt.Sprintf("def %s {F : Type} [NatCast F]%s : %s :=\n  %s\n", leanGlobal(g), zeroInst(term), g.t.lean(), term))
+	return true
+}
+
+func zeroInst(term string) string {
+	if strings.Contains(term, "(0 : F)") {
+		return " [Zero F]"
+	}
+	return ""
+}
+
+// ---------------------------------------------------------------- Lean output
+
+var classOrder = []string{"Add", "Sub", "Mul", "Neg", "Zero", "One", "Inv", "NatCast", "DecidableEq"}
+
+func (v *variant) resultType() string {
+	var parts []string
+	if v.f.kind == kBool {
+		return "Bool"
+	}
+	if v.hasVal() {
+		parts = append(parts, v.ret.lean())
+	}
+	for i := range v.roots {
+		if v.isPtr[i] {
+			parts = append(parts, v.rtypes[i].lean())
+		}
+	}
+	return strings.Join(parts, " × ")
+}
+
+func (v *variant) binders(p *pkgCtx) string {
+	var b strings.Builder
+	for i, r := range v.roots {
+		if v.inUsed[i] && v.rtypes[i] == nil {
+			fmt.Fprintf(&b, " (%s : Nat)", r)
+		} else if v.inUsed[i] {
+			fmt.Fprintf(&b, " (%s : %s)", r, v.rtypes[i].lean())
+		}
+	}
+	for _, g := range v.gparams {
+		fmt.Fprintf(&b, " (%s : %s)", g, p.globals[g].t.lean())
+	}
+	return b.String()
+}
+
+func (v *variant) instBinders(more ...*variant) string {
+	s := "{F : Type}"
+	for _, c := range classOrder {
+		need := v.classes[c]
+		for _, m := range more {
+			need = need || m.classes[c]
+		}
+		if need {
+			s += " [_root_." + c + " F]" // _root_: inside `def E2.Add` the bare name `Add` would be E2.Add itself
+		}
+	}
+	return s
+}
+
+func writeCode(b *strings.Builder, c *code, ind string) {
+	for _, l := range c.lines {
+		b.WriteString(ind + strings.ReplaceAll(l, "\n", "\n"+ind) + "\n")
+	}
+	if c.cond != "" {
+		b.WriteString(ind + "if " + c.cond + " then\n")
+		writeCode(b, c.thn, ind+"  ")
+		b.WriteString(ind + "else\n")
+		writeCode(b, c.els, ind+"  ")
+		return
+	}
+	b.WriteString(ind + c.result + "\n")
+}
+
+func modName(n string) string { return strings.ToUpper(n[:1]) + n[1:] }
+
+func (p *pkgCtx) emit() {
+	var b strings.Builder
+	fmt.Fprintf(&b, "/- GENERATED by tools/goslp (slp.go) from /repo/%s on every run. DO NOT EDIT.\n   One def per (function, alias pattern); see Gen/Tower/summary.json for what was not translatable. -/\nset_option linter.unusedVariables false\nnamespace GV.Gen.Tower.%s\n\n", p.cfg.dir, p.cfg.name)
+	// array structures, then the package's structures in dependency order
+	var ak []string
+	sizes := map[string]bool{}
+	for _, t := range p.arrays {
+		if !sizes[t.name] {
+			sizes[t.name] = true
+			ak = append(ak, t.name)
+		}
+	}
+	sort.Slice(ak, func(i, j int) bool { return len(ak[i]) < len(ak[j]) || len(ak[i]) == len(ak[j]) && ak[i] < ak[j] })
+	for _, n := range ak {
+		k, _ := strconv.Atoi(n[3:])
+		fmt.Fprintf(&b, "@[ext] structure %s (α : Type) where\n", n)
+		for i := 0; i < k; i++ {
+			fmt.Fprintf(&b, "  e%d : α\n", i)
+		}
+		b.WriteString("deriving DecidableEq\n\n")
+	}
+	done := map[string]bool{}
+	var emitT func(t *typ)
+	emitT = func(t *typ) {
+		if t.base || done[t.name] {
+			return
+		}
+		for _, ft := range t.ftypes {
+			emitT(ft)
+		}
+		if t.arr {
+			return
+		}
+		done[t.name] = true
+		fmt.Fprintf(&b, "@[ext] structure %s (F : Type) where\n", t.name)
+		for i, f := range t.fields {
+			fmt.Fprintf(&b, "  %s : %s\n", f, t.ftypes[i].lean())
+		}
+		b.WriteString("deriving DecidableEq\n\n")
+	}
+	var sn []string
+	for n := range p.structs {
+		sn = append(sn, n)
+	}
+	sort.Strings(sn)
+	for _, n := range sn {
+		emitT(p.structs[n])
+	}
+	for _, c := range p.consts {
+		b.WriteString(c + "\n")
+	}
+	for _, v := range p.order {
+		fmt.Fprintf(&b, "def %s %s%s : %s :=\n", v.name, v.instBinders(), v.binders(p), v.resultType())
+		writeCode(&b, v.body, "  ")
+		b.WriteString("\n")
+	}
+	fmt.Fprintf(&b, "end GV.Gen.Tower.%s\n", p.cfg.name)
+	writeFile("Tower/"+modName(p.cfg.name)+".lean", b.String())
+}
+
+// alias + frame theorems (C19 material); proved by the tactics of Proofs/AliasTac.lean
+func (p *pkgCtx) emitAlias() (nAlias, nFrame, nAmbiguous int) {
+	var b strings.Builder
+	fmt.Fprintf(&b, "/- GENERATED by tools/goslp (slp.go). DO NOT EDIT. Alias / frame theorems for Gen/Tower/%s.lean:\n   f_π on merged values = the non-aliased f on equal values; cells never written keep their value. -/\nimport GnarkVerif.Gen.Tower.%s\nimport GnarkVerif.Proofs.AliasTac\nset_option linter.unusedVariables false\nset_option linter.style.nameCheck false\nnamespace GV.Gen.Tower.%s\n\n", modName(p.cfg.name), modName(p.cfg.name), p.cfg.name)
+	for _, v := range p.order {
+		if v.f.kind == kBool {
+			continue
+		}
+		base := p.variants[leanFn(v.f.key)]
+		n := v.nComp()
+		off := 0
+		if v.hasVal() {
+			off = 1
+		}
+		args := strings.TrimSpace(v.binders(p))
+		call := v.callOn(p, nil)
+		// frame: roots never written
+		k := off
+		for i, r := range v.roots {
+			if !v.isPtr[i] {
+				continue
+			}
+			if !v.written[i] {
+				fmt.Fprintf(&b, "@[gv_alias] theorem %s_keeps_%s %s %s : (%s)%s = %s := by gv_frame %s\n", v.name, r, v.instBinders(), args, call, proj(k, n), r, v.name)
+				nFrame++
+			}
+			k++
+		}
+		if v == base || base == nil || base.err != "" {
+			continue
+		}
+		// alias: compare with the base pattern applied to duplicated arguments
+		bn := base.nComp()
+		posRoot := func(i int) string { return v.roots[v.blockIndex(i)] }
+		bcall := base.callOn(p, func(bi int) string {
+			for i := range v.f.pos {
+				if base.pat[i] == base.patOfRoot(bi) {
+					return posRoot(i)
+				}
+			}
+			return "?"
+		})
+		var comps []string
+		if off == 1 {
+			comps = append(comps, "("+bcall+")"+proj(0, bn))
+		}
+		ambiguous := false
+		for bi := range v.roots {
+			if !v.isPtr[bi] {
+				continue
+			}
+			var wpos []int
+			for i := range v.f.pos {
+				if v.blockIndex(i) == bi && base.written[base.blockIndex(i)] {
+					wpos = append(wpos, i)
+				}
+			}
+			switch len(wpos) {
+			case 0:
+				comps = append(comps, v.roots[bi])
+			case 1:
+				comps = append(comps, "("+bcall+")"+proj(off+base.ptrIndex(base.blockIndex(wpos[0])), bn))
+			default:
+				ambiguous = true
+			}
+		}
+		if ambiguous {
+			fmt.Fprintf(&b, "-- %s: two written positions are merged, no reference value\n", v.name)
+			nAmbiguous++
+			continue
+		}
+		rhs := comps[0]
+		if len(comps) > 1 {
+			rhs = "(" + strings.Join(comps, ", ") + ")"
+		}
+		if knownAliasFinding(p.cfg.name, v.name) {
+			fmt.Fprintf(&b, "-- KNOWN-FINDING (slp_known.txt), does NOT hold: theorem %s_alias %s : %s = %s\n", v.name, args, call, rhs)
+			p.known = append(p.known, v.name)
+			continue
+		}
+		fmt.Fprintf(&b, "@[gv_alias] theorem %s_alias %s %s : %s = %s := by gv_alias %s %s\n", v.name, v.instBinders(base), args, call, rhs, v.name, base.name)
+		nAlias++
+	}
+	fmt.Fprintf(&b, "\nend GV.Gen.Tower.%s\n", p.cfg.name)
+	writeFile("Tower/"+modName(p.cfg.name)+"Alias.lean", b.String())
+	return
+}
+
+func (v *variant) hasVal() bool { return v.f.kind == kValue || v.fresh }
+
+func (v *variant) nComp() int {
+	n := 0
+	if v.hasVal() {
+		n = 1
+	}
+	for i := range v.roots {
+		if v.isPtr[i] {
+			n++
+		}
+	}
+	return n
+}
+
+// index of the root that position i belongs to
+func (v *variant) blockIndex(i int) int {
+	seen := map[int]int{}
+	for j := range v.pat {
+		if _, ok := seen[v.pat[j]]; !ok {
+			seen[v.pat[j]] = len(seen)
+		}
+	}
+	return seen[v.pat[i]]
+}
+
+func (v *variant) patOfRoot(bi int) int {
+	for i := range v.pat {
+		if v.blockIndex(i) == bi {
+			return v.pat[i]
+		}
+	}
+	return -1
+}
+
+// index of root bi among the pointer roots (= component index without the value offset)
+func (v *variant) ptrIndex(bi int) int {
+	k := 0
+	for i := 0; i < bi; i++ {
+		if v.isPtr[i] {
+			k++
+		}
+	}
+	return k
+}
+
+func (v *variant) callOn(p *pkgCtx, arg func(bi int) string) string {
+	parts := []string{v.name}
+	for i, r := range v.roots {
+		if v.inUsed[i] {
+			if arg != nil {
+				parts = append(parts, arg(i))
+			} else {
+				parts = append(parts, r)
+			}
+		}
+	}
+	parts = append(parts, v.gparams...)
+	return strings.Join(parts, " ")
+}
+
+// executable table (search step / correspondence of the translator itself): every def instantiated at the
+// core-only field `ZModQ q`, arguments and results flattened to lists of base-field values.
+// Input layout : every root (alias block) in order of first occurrence, flattened in Go field order.
+// Output layout: the value result (if any) followed by every pointer-reachable root.
+func (p *pkgCtx) emitExec(ops *strings.Builder) {
+	var b strings.Builder
+	m := modName(p.cfg.name)
+	fmt.Fprintf(&b, "/- GENERATED by tools/goslp (slp.go). DO NOT EDIT. Gen/Tower/%s.lean evaluated on numbers (core-only). -/\nimport GnarkVerif.Model.ZModQ\nimport GnarkVerif.Gen.Tower.%s\nset_option linter.unusedVariables false\nnamespace GV.Gen.Tower.%s\nopen GV\n\n", m, m, p.cfg.name)
+	flat := func(t *typ, binder string) {
+		var to, take, mk []string
+		for i, f := range t.fields {
+			to = append(to, "Flat.toL x."+f)
+			take = append(take, fmt.Sprintf("let (a%d, xs) := Flat.take xs", i))
+			mk = append(mk, fmt.Sprintf("a%d", i))
+		}
+		fmt.Fprintf(&b, "instance %s : Flat %s where\n  toL x := %s\n  take xs :=\n    %s\n    (⟨%s⟩, xs)\n\n", binder, t.lean(), strings.Join(to, " ++ "), strings.Join(take, "\n    "), strings.Join(mk, ", "))
+	}
+	doneArr := map[string]bool{}
+	var arrs []*typ
+	for _, t := range p.arrays {
+		if !doneArr[t.name] {
+			doneArr[t.name] = true
+			arrs = append(arrs, &typ{arr: true, name: t.name, fields: t.fields, ftypes: []*typ{{name: "α"}}})
+		}
+	}
+	sort.Slice(arrs, func(i, j int) bool { return len(arrs[i].fields) < len(arrs[j].fields) })
+	for _, t := range arrs {
+		to := make([]string, len(t.fields))
+		for i, f := range t.fields {
+			to[i] = "Flat.toL x." + f
+		}
+		var take, mk []string
+		for i := range t.fields {
+			take = append(take, fmt.Sprintf("let (a%d, xs) := Flat.take xs", i))
+			mk = append(mk, fmt.Sprintf("a%d", i))
+		}
+		fmt.Fprintf(&b, "instance {α : Type} [Flat α] : Flat (%s α) where\n  toL x := %s\n  take xs :=\n    %s\n    (⟨%s⟩, xs)\n\n", t.name, strings.Join(to, " ++ "), strings.Join(take, "\n    "), strings.Join(mk, ", "))
+	}
+	done := map[string]bool{}
+	var rec func(t *typ)
+	rec = func(t *typ) {
+		if t.base || done[t.name] {
+			return
+		}
+		for _, ft := range t.ftypes {
+			rec(ft)
+		}
+		if t.arr {
+			return
+		}
+		done[t.name] = true
+		flat(t, "{F : Type} [Flat F]")
+	}
+	var sn []string
+	for n := range p.structs {
+		sn = append(sn, n)
+	}
+	sort.Strings(sn)
+	for _, n := range sn {
+		rec(p.structs[n])
+	}
+	fmt.Fprintf(&b, "/-- the base field of %s -/\nabbrev K := ZModQ %s\n\n", p.cfg.baseDir, p.fc.modulus)
+	var table []string
+	for _, v := range p.order {
+		if len(v.gparams) > 0 {
+			continue
+		}
+		var lets, args []string
+		var types []string
+		for i, r := range v.roots {
+			ty := "Nat"
+			if v.rtypes[i] != nil {
+				ty = strings.ReplaceAll(v.rtypes[i].lean(), " F", " K")
+				if v.rtypes[i].base {
+					ty = "K"
+				}
+				types = append(types, v.rtypes[i].goName())
+			} else {
+				types = append(types, "int")
+			}
+			lets = append(lets, fmt.Sprintf("let (%s, xs) := Flat.take (α := %s) xs", r, ty))
+			if v.inUsed[i] {
+				args = append(args, r)
+			}
+		}
+		call := v.name
+		if len(args) == 0 {
+			call += " (F := K)"
+		} else {
+			call += " " + strings.Join(args, " ")
+		}
+		// one def per entry (a single big table makes the code generator time out)
+		xn := "x_" + strings.ReplaceAll(v.name, ".", "_")
+		fmt.Fprintf(&b, "@[noinline] def %s (xs : List Nat) : List Nat :=\n  %s\n  Flat.toL (%s)\n\n", xn, strings.Join(append(lets, "let _ := xs"), "\n  "), call)
+		table = append(table, fmt.Sprintf("  (\"%s\", %s)", v.name, xn))
+		// op description for the harness: only exported methods of exported types are reachable by reflection
+		if d := v.f.decl; d.Recv != nil && d.Name.IsExported() && !v.f.inBase && !v.f.pos[0].t.base {
+			pat := make([]string, len(v.pat))
+			seen := map[int]int{}
+			for i, q := range v.pat {
+				if _, ok := seen[q]; !ok {
+					seen[q] = len(seen)
+				}
+				pat[i] = strconv.Itoa(seen[q])
+			}
+			fmt.Fprintf(ops, "%s %s %s %s %s\n", p.cfg.name, v.name, v.f.key, strings.Join(pat, ","), strings.Join(types, ","))
+		}
+	}
+	fmt.Fprintf(&b, "def execTable : List (String × (List Nat → List Nat)) := [\n%s]\n\n", strings.Join(table, ",\n"))
+	fmt.Fprintf(&b, "def exec (name : String) (xs : List Nat) : Option (List Nat) := (execTable.lookup name).map (· xs)\n\nend GV.Gen.Tower.%s\n", p.cfg.name)
+	writeFile("Tower/"+m+"Exec.lean", b.String())
+}
+
+func (t *typ) goName() string {
+	switch {
+	case t.base:
+		return "Element"
+	case t.arr:
+		return fmt.Sprintf("[%d]%s", len(t.fields), t.ftypes[0].goName())
+	}
+	return t.name
+}
+
+// ---------------------------------------------------------------- driver
+
+var slpPrintTargets = false
+
+func init() {
+	flag.BoolVar(&slpPrintTargets, "slp-print-targets", false, "print the list of translated functions (to refresh slp_targets.txt)")
+}
+
+func runSLP() {
+	type pkgSummary struct {
+		Translated   []string          `json:"translated"`
+		Variants     int               `json:"variants"`
+		Untranslated map[string]string `json:"untranslated"`
+		AliasThms    int               `json:"alias_theorems"`
+		FrameThms    int               `json:"frame_theorems"`
+		Ambiguous    int               `json:"alias_ambiguous"`
+		ReducedAlias []string          `json:"alias_patterns_reduced"`
+		KnownAlias   []string          `json:"alias_known_findings"`
+	}
+	summary := map[string]*pkgSummary{}
+	want := map[string]bool{}
+	for _, l := range strings.Split(slpTargets, "\n") {
+		if l = strings.TrimSpace(l); l != "" && !strings.HasPrefix(l, "#") {
+			want[l] = true
+		}
+	}
+	var all []string
+	var failures []string
+	var ops strings.Builder
+	for _, cfg := range towerPkgs {
+		if _, err := os.Stat(filepath.Join(repo, cfg.dir)); err != nil {
+			die("tower package %s not found", cfg.dir)
+		}
+		p := loadPkg(cfg)
+		ps := &pkgSummary{Untranslated: map[string]string{}}
+		summary[cfg.name] = ps
+		for _, k := range p.fnOrder {
+			f := p.funcs[k]
+			parts := f.partitions()
+			base := p.translate(f, parts[0])
+			if base.err != "" {
+				ps.Untranslated[k] = base.err
+				if want[cfg.name+" "+k] {
+					failures = append(failures, fmt.Sprintf("%s %s: %s", cfg.name, k, base.err))
+				}
+				continue
+			}
+			ps.Translated = append(ps.Translated, k)
+			all = append(all, cfg.name+" "+k)
+			reduced := len(parts) > maxPatterns
+			if reduced {
+				ps.ReducedAlias = append(ps.ReducedAlias, k)
+			}
+			for _, pat := range parts[1:] {
+				if reduced && !mergesWritten(base, pat) {
+					continue
+				}
+				if v := p.translate(f, pat); v.err != "" {
+					ps.Untranslated[v.name] = v.err
+				}
+			}
+		}
+		p.emit()
+		ps.AliasThms, ps.FrameThms, ps.Ambiguous = p.emitAlias()
+		p.emitExec(&ops)
+		ps.Variants = len(p.order)
+		ps.KnownAlias = p.known
+		fmt.Fprintf(os.Stderr, "gvgoslp: %-10s %3d functions translated (%d defs), %d untranslatable\n", cfg.name, len(ps.Translated), ps.Variants, len(ps.Untranslated))
+	}
+	if slpPrintTargets {
+		fmt.Println(strings.Join(all, "\n"))
+	}
+	writeFile("Tower/exec_ops.txt", ops.String())
+	js, _ := json.MarshalIndent(summary, "", " ")
+	writeFile("Tower/summary.json", string(js)+"\n")
+	un := map[string]map[string]string{}
+	for k, v := range summary {
+		un[k] = v.Untranslated
+	}
+	js, _ = json.MarshalIndent(un, "", " ")
+	writeFile("untranslated.json", string(js)+"\n")
+	if len(failures) > 0 {
+		die("targeted functions no longer fit the translatable subset:\n  %s", strings.Join(failures, "\n  "))
+	}
+	for w := range want {
+		found := false
+		for _, a := range all {
+			found = found || a == w
+		}
+		if !found {
+			failures = append(failures, w)
+		}
+	}
+	if len(failures) > 0 {
+		sort.Strings(failures)
+		die("targeted functions not found in /repo any more:\n  %s", strings.Join(failures, "\n  "))
+	}
+}
+
+// every merged block of pat contains a position written by the base pattern
+func mergesWritten(base *variant, pat []int) bool {
+	cnt := map[int]int{}
+	wr := map[int]bool{}
+	for i, b := range pat {
+		cnt[b]++
+		if base.written[base.blockIndex(i)] {
+			wr[b] = true
+		}
+	}
+	for b, c := range cnt {
+		if c > 1 && !wr[b] {
+			return false
+		}
+	}
+	return true
+}
